@@ -193,9 +193,9 @@ class Real:
         return d
 
     # ------------------------------------------------------------------ run one case
-    def run_case(self, case, log=None):
+    def run_case(self, case, log=None, snapshots=True):
         """returns output lines; `log` (list) receives structured records for the monitors"""
-        run = CaseRun(self, log)
+        run = CaseRun(self, log, snapshots)
         out = []
         try:
             for line in case[1:]:
@@ -209,9 +209,10 @@ class CaseRun:
     """incremental executor of one case on the real code (also used by the generators, which must
     know whether a build emitted before they can schedule its delivery)"""
 
-    def __init__(self, real, log=None):
+    def __init__(self, real, log=None, snapshots=True):
         self.real = real
         self.log = log
+        self.snapshots = snapshots
         self.eps = {}
         self.key_of = {}
         real.C.Packet.setMTU(real.default_mtu)
@@ -340,7 +341,7 @@ class CaseRun:
                                 "muts": muts})
                 return out
             del conn._v_events[:]
-            before = real.dump(conn) if log is not None else None
+            before = real.dump(conn) if (log is not None and self.snapshots) else None
             dropped0 = conn.stats.dropped
             try:
                 r = conn._recv_datagram(hdr, d)
@@ -353,7 +354,7 @@ class CaseRun:
             out.append("ret=%s ev=%s" % (ret, ",".join(evs) if evs else "-"))
             if log is not None:
                 log.append({"op": "recv", "e": w[1], "t": real.now, "ret": ret, "ev": evs, "spec": kvs["d"], "muts": muts,
-                            "rekey": kvs.get("rekey"), "identity": identity, "before": before, "after": real.dump(conn),
+                            "rekey": kvs.get("rekey"), "identity": identity, "before": before, "after": real.dump(conn) if self.snapshots else None,
                             "hdrseq": int(hdr.seq), "keyed": bool(conn.session_key_bytes)})
         elif op == "tmo":
             conn = eps[w[1]]["conn"]
@@ -620,13 +621,13 @@ def dump_fields(line, fields):
     return " ".join("%s=%s" % (f, parts.get(f, "?")) for f in fields)
 
 
-def run_cases(ctx, real, cases, post, layer, rule, nontrivial=None):
+def run_cases(ctx, real, cases, post, layer, rule, nontrivial=None, snapshots=True):
     """correspondence + collection of the structured logs of the real runs (for the monitors)"""
     logs = {}
 
     def impl_fn(case):
         log = []
-        out = real.run_case(case, log)
+        out = real.run_case(case, log, snapshots)
         logs[core.case_id(case)] = log
         return out
     bad = ctx.correspondence(layer, "Conn", cases, impl_fn, nontrivial, rule, post=post)
